@@ -20,8 +20,23 @@ let aerr_s = function
   | M.ATwice -> "twice" | M.AUnknownBase -> "unknownbase" | M.ANoHeader -> "noheader" | M.AInvalidChain -> "invalidchain"
   | M.AForked -> "forked" | M.AMempool -> "mempool" | M.APopulate e -> perr_s e | M.AWork -> "work"
 
+let model_bg impl =
+  let table = List.map (fun e -> match String.split_on_char ':' e with
+      | [h; bh; hs] -> { M.au_height = z_of_string h; M.au_blockhash = bytes_of_hex bh; M.au_hash = bytes_of_hex hs }
+      | _ -> failwith "table") (String.split_on_char ';' (field impl "table")) in
+  let set = (match field impl "set" with "-" -> [] | s ->
+      List.map (fun e -> match String.split_on_char ':' e with
+          | [txid; n; h; cb; v; sc] ->
+            { M.u_txid = bytes_of_hex txid; M.u_n = z_of_string n;
+              M.u_coin = { M.c_height = z_of_string h; M.c_coinbase = (cb = "1"); M.c_value = z_of_string v; M.c_script = bytes_of_hex sc } }
+          | _ -> failwith "coin") (String.split_on_char ';' s)) in
+  match M.run_maybe_validate table (field impl "ready" = "1") (z_of_string (field impl "height")) set with
+  | M.CSkipped -> "bgres=SKIPPED" | M.CMissingParams -> "bgres=MISSING_CHAINPARAMS"
+  | M.CHashMismatch -> "bgres=HASH_MISMATCH" | M.CSuccess -> "bgres=SUCCESS"
+
 let model _ l =
-  let (_, impl) = split_arrow l in
+  let (c, impl) = split_arrow l in
+  if String.length c >= 2 && String.sub c 0 2 = "bg" then model_bg impl else
   let file = bytes_of_hex (field impl "file") in
   let netmagic = bytes_of_hex (field impl "netmagic") in
   match M.read_meta netmagic file with
